@@ -33,13 +33,17 @@ def plan(seed, tier):
     out = []
     for i in range(n):
         out.append({"id": f"types-{seed}-{i}", "seed": seed * 100003 + i, "profile": "zoo" if i % 2 == 0 else "wellformed"})
+    # messages and enums of one name in two modules of one base name (root package and a sub-package)
+    out += [{"id": f"types-twin-{seed}-{i}", "seed": seed * 100003 + 4000 + i, "profile": "twin"} for i in range(max(2, n // 10))]
     return out
 
 
 def build_api(case):
     rng = random.Random(case["seed"])
     nm = "t%d" % (case["seed"] % 100000)
-    if case["profile"] == "zoo":
+    if case["profile"] == "twin":
+        api = apigen.twin_module_api(rng, nm)
+    elif case["profile"] == "zoo":
         api = apigen.types_zoo(rng, nm)
     else:
         api = apigen.wellformed(rng, nm)
@@ -92,6 +96,10 @@ F_MESSAGE = dpb.FieldDescriptorProto.TYPE_MESSAGE
 F_REPEATED = dpb.FieldDescriptorProto.LABEL_REPEATED
 
 
+pkg_of = {}          # full name -> proto package of its file (filled by all_messages)
+cur_pkg = [None]
+
+
 def all_messages(req):
     """(full name, DescriptorProto, nesting path) for messages of target files."""
     out = []
@@ -100,6 +108,7 @@ def all_messages(req):
         if m.options.map_entry:
             return
         out.append((fq, m, path))
+        pkg_of[fq] = cur_pkg[0]
         for n in m.nested_type:
             walk(n, fq + "." + n.name, path + [n.name])
 
@@ -108,12 +117,16 @@ def all_messages(req):
     def walk_enums(m, fq, path):
         for e in m.enum_type:
             enums.append((fq + "." + e.name, e, path + [e.name]))
+            pkg_of[fq + "." + e.name] = cur_pkg[0]
         for n in m.nested_type:
             if not n.options.map_entry:
                 walk_enums(n, fq + "." + n.name, path + [n.name])
 
     for p in req.proto_file:
         if p.name in req.file_to_generate:
+            cur_pkg[0] = p.package
+            for e_ in p.enum_type:
+                pkg_of[p.package + "." + e_.name] = p.package
             for m in p.message_type:
                 walk(m, p.package + "." + m.name, [m.name])
                 walk_enums(m, p.package + "." + m.name, [m.name])
@@ -181,6 +194,12 @@ def _foreign_collection(pkg):
     return skip
 
 
+def _sub(api, fq):
+    """Sub-package (relative to the API's package) in which the type's file lives: its classes are exported there."""
+    p = pkg_of.get(fq) or api.info["pkg"]
+    return p[len(api.info["pkg"]) + 1:] if p.startswith(api.info["pkg"] + ".") else ""
+
+
 def _run_case(case, scratch):
     api = build_api(case)
     req, g, lib = pipeline.build_and_generate(api, scratch)
@@ -205,8 +224,8 @@ def _run_case(case, scratch):
             py = {(k + "_" if (k in reserved or keyword.iskeyword(k)) else k): v for k, v in py.items()}
             surf.append({"py": py, "bytes": rdm.b64(x.SerializeToString())})
         attrs = {f.name: [f.name + "_"] if (f.name in reserved or keyword.iskeyword(f.name)) else [f.name] for f in m.field}
-        items.append({"fq": fq, "path": path, "vals": vals, "surface": surf, "attrs": attrs})
-    eitems = [{"fq": fq, "path": path} for fq, e, path in enums]
+        items.append({"fq": fq, "path": path, "vals": vals, "surface": surf, "attrs": attrs, "sub": _sub(api, fq)})
+    eitems = [{"fq": fq, "path": path, "sub": _sub(api, fq)} for fq, e, path in enums]
     script = {"root_pkg": apigen.lib_root(api.info, api.options), "messages": items, "enums": eitems}
     ev, rc, err = pipeline.run_runner("checks.c02", script, lib, timeout=300)
     if ev is None or "runner_crash" in ev or "library_import_error" in ev:
@@ -344,9 +363,11 @@ def in_runner(script):
     root = importlib.import_module(script["root_pkg"])
     types = importlib.import_module(script["root_pkg"] + ".types")
 
-    def locate(path):
+    def locate(path, sub=""):
         objs = []
-        for base in (root, types):
+        bases = (root, types) if not sub else (importlib.import_module(script["root_pkg"] + "." + sub),
+                                               importlib.import_module(script["root_pkg"] + "." + sub + ".types"))
+        for base in bases:
             cur = base
             try:
                 for p in path:
@@ -362,7 +383,7 @@ def in_runner(script):
     for it in script["messages"]:
         r = {}
         try:
-            cls = locate(it["path"])
+            cls = locate(it["path"], it.get("sub") or "")
             obj = cls()
             desc = cls.pb(obj).DESCRIPTOR
             dp = descriptor_pb2.DescriptorProto()
@@ -410,7 +431,7 @@ def in_runner(script):
         out["messages"].append(r)
     for it in script["enums"]:
         try:
-            cls = locate(it["path"])
+            cls = locate(it["path"], it.get("sub") or "")
             out["enums"].append({"members": {m.name: int(m.value) for m in cls}})
         except BaseException as e:  # noqa
             out["enums"].append({"error": f"{type(e).__name__}: {e}"[:300]})
